@@ -1,5 +1,5 @@
 (* C04 — loops: at most max_iterations supersteps; InfiniteLoopError carries the state so far. *)
-From HG Require Import Base Engine Exec EngineProofs LoopProofs Samples.
+From HG Require Import Base Engine Exec EngineProofs LoopProofs LoopCount Samples.
 From stdpp Require Import gmap.
 
 (* A run never executes more than max_iterations supersteps (every graph, runner, executor). *)
@@ -51,6 +51,42 @@ Theorem C04_records_from_the_past : forall exec g pv r k st,
   steps exec r g pv k (init_state pv) st -> RecLe st.
 Proof. intros exec g pv r k st H. apply (RecLe_steps exec g pv r k _ _ H). apply RecLe_init. Qed.
 Print Assumptions C04_records_from_the_past.
+
+(* EXACT ITERATION COUNT.  The signal-synchronised loop (Samples.loop: body node 10 computing x := f x and emitting `done`,
+   exit gate 13 reading x, waiting for `done`, open by default) -  x := f x; while P x: x := f x  - for EVERY predicate P, body
+   function f, start value, runner and budget of at least 2n supersteps: the run COMPLETES with x = f^n x0, where n >= 1 is the
+   first n with P (f^n x0) = false; the body ran exactly n times and the gate exactly n times - no skipped, repeated or extra
+   pass.  (Every pass must change x: a pass that leaves x unchanged bumps no version and the engine stops there.)  The
+   executor is any function behaving as stated on the two nodes. *)
+Theorem C04_loop_exact : forall (P : Z -> bool) (f : Z -> Z) (exec : node -> state -> dict val -> outcome) (r : runner) (x0 : Z) (n fuel : nat),
+  (forall st x, exec body_node st [(1%positive, VInt x)] = OOk [(1%positive, VInt (f x)); (20%positive, VSentinel)] None) ->
+  (forall st x, exec loop_gate st [(1%positive, VInt x)] = OOk [] (Some (Some (if P x then DOne 10 else DEnd)))) ->
+  (1 <= n)%nat ->
+  (forall j, (1 <= j < n)%nat -> P (Nat.iter j f x0) = true) ->
+  P (Nat.iter n f x0) = false ->
+  (forall j, (j < n)%nat -> Nat.iter (S j) f x0 <> Nat.iter j f x0) ->
+  (2 * n <= fuel)%nat ->
+  exists st log,
+    execute exec r fuel loop [(1%positive, VInt x0)] = (RDone st, log) /\
+    vals st !! 1%positive = Some (VInt (Nat.iter n f x0)) /\
+    cnt 10 log = n /\ cnt 13 log = n.
+Proof. exact loop_runs_exactly. Qed.
+Print Assumptions C04_loop_exact.
+
+(* ... in particular for the executor and function tables the correspondence harness runs against the implementation
+   (the body adds m, the gate continues while x < bound) *)
+Theorem C04_loop_family_exact : forall (m bound : Z) (r : runner) (x0 : Z) (n fuel : nat),
+  (1 <= n)%nat ->
+  (forall j, (1 <= j < n)%nat -> Z.ltb (Nat.iter j (fun x => x + m)%Z x0) bound = true) ->
+  Z.ltb (Nat.iter n (fun x => x + m)%Z x0) bound = false ->
+  m <> 0%Z ->
+  (2 * n <= fuel)%nat ->
+  exists st log,
+    execute (exec_basic (loop_family_ft m bound) loop_gt) r fuel loop [(1%positive, VInt x0)] = (RDone st, log) /\
+    vals st !! 1%positive = Some (VInt (Nat.iter n (fun x => x + m)%Z x0)) /\
+    cnt 10 log = n /\ cnt 13 log = n.
+Proof. exact loop_family_exact. Qed.
+Print Assumptions C04_loop_family_exact.
 
 Example C04_loop_runs :
   let r := run_basic loop_ft loop_gt Sync 20 loop [(1%positive, VInt 0)] None in
